@@ -7,4 +7,5 @@ for p in "$@"; do
   echo "== $p rc=$rc"; echo "$out" | grep -E "VIOLATION|KNOWN" | cut -c1-160 | head -4
 done
 git -C /repo checkout -- .
+git -C /repo clean -qfd src
 git -C /repo status --short | head -3
